@@ -1228,7 +1228,33 @@ def exec_construct(sess: Session, op: dict, step: int) -> Effect:
     node = make_donor(sess, op['v'])
     eff.target = type(node).__name__
     sess.pool.append(node)
+    _check_constructed_meta_indent(eff, step, node, op['v'])
     return eff
+
+
+def _check_constructed_meta_indent(eff: Effect, step: int, node: Any, recipe: Any) -> None:
+    """C18 for the constructor route: meta items made from a plain mapping have no siblings, so each takes
+    the parent's own indentation followed by the parent's indent_by."""
+    if not isinstance(recipe, dict) or 'from_value' not in recipe:
+        return
+    args = recipe['args']
+    if args.get('meta'):
+        parent_indent = args.get('indent', '') if isinstance(args.get('indent', ''), str) else ''
+        indent_by = args.get('indent_by', '    ')
+        try:
+            items = [it for it in node.raw_meta_with_comments if isinstance(it, models.MetaItem)]
+        except Exception:
+            items = []
+        for it in items:
+            if it.indent != parent_indent + indent_by:
+                eff.v('C18', 'meta_indent_default', step,
+                      f'{type(node).__name__}.from_value(indent={parent_indent!r}, indent_by={indent_by!r}, meta=...): item {it.key!r} '
+                      f'created with indent {it.indent!r}')
+                return
+        if getattr(node, 'indent_by', indent_by) != indent_by:
+            eff.v('C18', 'meta_indent_default', step, f'{type(node).__name__}.from_value(indent_by={indent_by!r}) has indent_by {node.indent_by!r}')
+    for sub_r, sub_n in zip(args.get('postings') or [], list(getattr(node, 'raw_postings', []) or [])):
+        _check_constructed_meta_indent(eff, step, sub_n, sub_r)
 
 
 def exec_handle(sess: Session, op: dict, step: int) -> Effect:
